@@ -67,8 +67,16 @@ def _set_whole(arr: ix.IArr, f):
         if ax[0] == "fix":
             raise ix.OutOfReach("loop invariant on a partial view")
     if arr.quat:
+        memo = {}
+
         def cell(idx):
-            q = ix.QScal.lift(f(tuple(idx[:-1])))
+            k = ix._ikey(idx[:-1])
+            if k is not None and k in memo:
+                q = memo[k]
+            else:
+                q = ix.QScal.lift(f(tuple(idx[:-1])))
+                if k is not None:
+                    memo[k] = q
             comp = idx[-1]
             if isinstance(comp, int):
                 return q.c[comp]
